@@ -1,10 +1,14 @@
 use crate::sparse::{Node, SparseMatrix};
-use std::collections::VecDeque;
+use std::collections::{HashMap, VecDeque};
 
 #[derive(Debug, Clone, Eq, PartialEq)]
 struct PathHead {
     node: Node,
     parent: Option<Node>,
+    // Identifies the neighbour of the root node through which this path
+    // leaves the root (index of that neighbour plus one; zero for the root
+    // node itself).
+    branch: usize,
     path_length: usize,
 }
 
@@ -22,6 +26,13 @@ impl PathHead {
             .map(move |x| PathHead {
                 node: x,
                 parent: Some(self.node),
+                branch: if self.branch == 0 {
+                    match x {
+                        Node::Row(n) | Node::Col(n) => n + 1,
+                    }
+                } else {
+                    self.branch
+                },
                 path_length: self.path_length + 1,
             })
     }
@@ -62,6 +73,7 @@ impl BFSContext<'_> {
         to_visit.push_back(PathHead {
             node,
             parent: None,
+            branch: 0,
             path_length: 0,
         });
         let mut results = BFSResults {
@@ -90,14 +102,24 @@ impl BFSContext<'_> {
     }
 
     pub fn local_girth(mut self, max: usize) -> Option<usize> {
+        // Branch (neighbour of the root) through which each node was first
+        // reached. Two paths that meet form a cycle through the root only if
+        // they leave the root through different neighbours; otherwise they
+        // share their first edge and the cycle they close does not contain
+        // the root.
+        let mut branches = HashMap::new();
         while let Some(head) = self.to_visit.pop_front() {
             for next_head in head.iter(self.h) {
                 let next_dist = self.results.get_node_mut(next_head.node);
                 if let Some(dist) = *next_dist {
+                    if branches.get(&next_head.node) == Some(&next_head.branch) {
+                        continue;
+                    }
                     let total = dist + next_head.path_length;
                     return if total <= max { Some(total) } else { None };
                 } else {
                     *next_dist = Some(next_head.path_length);
+                    branches.insert(next_head.node, next_head.branch);
                     if next_head.path_length < max {
                         self.to_visit.push_back(next_head);
                     }
